@@ -27,6 +27,10 @@ CLAIMS = {
          "The specification is built at one place from constants, so its lock-down is decided for every requested path set: read-only root, no-new-privileges, empty capability sets, six namespaces incl. network, positive memory/pid limits, GOPROXY=off, --network=none, ro bind mounts for every host source, reserved-path/Abs/EvalSymlinks guards on user mounts, fixed destinations reserved, Spec.Mounts is the stably Destination-sorted slice, escape check before any mount point is created.",
          "Trusts the container runtime to enforce the specification; does not decide paths merely under a reserved path.",
          "DESIGN.md §4 C14"),
+ "C08": ("must-pass-through with NaN-safe comparison atoms for every admission of a matcher result, forward use-census of the threshold value (through captured variables), sort-provenance of returned alert slices, sibling comparison of guard shapes between exact and full mode, enumerated bounded shapes for score terms",
+         "Decides the structural half of 'every alert is justified': missing required call ⇒ constant-0 confidence on every reachable return; every admission in both backends dominated by Confidence >= threshold-field (or a constant >= 0.99 in JSON exact mode) in NaN-safe polarity; the threshold feeds nothing but such comparisons (monotonicity); returned alert slices are the Confidence-descending-sorted ones; exact and full mode guard admission by the same shapes (JSON: only the two stated differences); every score term is one of the enumerated [0,1] shapes and confidence is their mean.",
+         "Does not decide numeric equality of confidences across modes nor floating-point corner cases beyond the NaN polarity of the filter.",
+         "DESIGN.md §4 C08"),
 }
 
 PENDING_REASON = "static check for this property is not armed yet in this revision of the machinery (see DESIGN.md §4 for the planned structural clauses); not claimed until its rules run silent on the tree and fire on their mutants"
